@@ -31,6 +31,9 @@ func c17(tier string) []*explore.Scenario {
 		out = append(out, c17AttachDuringDial("C17", dial, bound))
 	}
 	out = append(out, c17OpSeqs("C17", tier)...)
+	for _, what := range []string{"reattach", "send", "reattach-other"} {
+		out = append(out, c17ReentrantCallback(what, bound))
+	}
 	for _, traffic := range []int{0, 1, 2} {
 		out = append(out, c17DeadOnAttach(traffic, bound+3-traffic))
 	}
@@ -723,7 +726,7 @@ func c17OpSeq(prop string, first, maxLen int) *explore.Scenario {
 func c17Product(prop string) *explore.Scenario {
 	fam := prop + "/routing-product"
 	return &explore.Scenario{
-		Name: prop + "/routing-product/360-header-shapes", Family: fam, Prop: prop, Bound: 0,
+		Name: prop + "/routing-product/504-header-shapes", Family: fam, Prop: prop, Bound: 0,
 		Run: func() {
 			t, peers := c17Env(16)
 			pc := env.NewPipe(t.Tap, env.PipeOpts{Name: "c", Cap: 16})
@@ -731,10 +734,12 @@ func c17Product(prop string) *explore.Scenario {
 			t.DialErr["nowhere"] = errors.New("no route")
 			t.DialErr[""] = errors.New("no route")
 			t.DialErr["x"] = errors.New("no route")
+			pp := env.NewPipe(t.Tap, env.PipeOpts{Name: "proxy", Cap: 16})
+			t.Extra["proxy"] = pp // a peer reachable under the proxy's own name (dialled on demand like any other)
 			vsched.Settle()
 			srcs := []string{"a", "b", "mallory", ""}
-			dsts := []string{"b", "c", "a", "nowhere", ""}
-			nexts := [][]string{nil, {}, {"b"}, {"c"}, {"nowhere"}, {"x", "b"}}
+			dsts := []string{"b", "c", "a", "nowhere", "", "proxy"}
+			nexts := [][]string{nil, {}, {"b"}, {"c"}, {"nowhere"}, {"x", "b"}, {"proxy"}}
 			recs := [][]string{nil, {}, {"edge"}}
 			si, di, ni, ri := vsched.Choose(len(srcs)), vsched.Choose(len(dsts)), vsched.Choose(len(nexts)), vsched.Choose(len(recs))
 			rpc := c17Msg(1, srcs[si], dsts[di])
@@ -751,16 +756,17 @@ func c17Product(prop string) *explore.Scenario {
 				if len(nexts[ni]) > 0 {
 					want = nexts[ni][len(nexts[ni])-1]
 				}
-				if want != "a" && want != "b" && want != "c" {
+				if want != "a" && want != "b" && want != "c" && want != "proxy" {
 					want = "" // cannot be reached
 				}
 			}
 			desc := fmt.Sprintf("source=%q destination=%q return-route=%v record=%v", srcs[si], dsts[di], nexts[ni], recs[ri])
-			for _, peer := range []string{"a", "b", "c"} {
+			for _, peer := range []string{"a", "b", "c", "proxy"} {
 				n := 0
 				var rec []string
+				dialled := peer == "c" || peer == "proxy"
 				for _, e := range t.Tap.Events {
-					if e.Wire == peer && e.Rpc.GetId() == 1 && ((peer == "c" && e.Dir == "a2b") || (peer != "c" && e.Dir == "b2a")) {
+					if e.Wire == peer && e.Rpc.GetId() == 1 && ((dialled && e.Dir == "a2b") || (!dialled && e.Dir == "b2a")) {
 						n++
 						rec = e.Rpc.GetHeader().GetProxyRecord()
 					}
@@ -781,6 +787,80 @@ func c17Product(prop string) *explore.Scenario {
 				vsched.Fail(fam+"|stopped-forwarding", "after an envelope with %s the proxy no longer forwards good traffic", desc)
 			}
 			vsched.Obs("%s -> %q", desc, want)
+		},
+	}
+}
+
+// c17ReentrantCallback: the disconnect callback calls back into the proxy, as a
+// reconnect policy would (AddClient for the peer that failed, or for another
+// name) or as a notifier would (through a peer's connection). The proxy keeps
+// forwarding, the re-attached connection works, and shutdown still completes.
+func c17ReentrantCallback(what string, bound int) *explore.Scenario {
+	fam := "C17/reentrant-callback"
+	return &explore.Scenario{
+		Name: "C17/reentrant-callback/" + what, Family: fam, Prop: "C17", Bound: bound,
+		Run: func() {
+			t, peers := c17Env(16)
+			nb := env.NewPipe(t.Tap, env.PipeOpts{Name: "b2", Cap: 16})
+			cbDone := 0
+			t.OnDisconnect = func(id string) {
+				switch what {
+				case "reattach":
+					if id == "b" && cbDone == 0 {
+						t.Proxy.AddClient("b", nb.B)
+					}
+				case "reattach-other":
+					if cbDone == 0 {
+						t.Proxy.AddClient("z", nb.B)
+					}
+				case "send":
+					peers["a"].A.Inject(c17Msg(uint64(90+cbDone), "a", "a"))
+				}
+				cbDone++
+			}
+			vsched.Settle()
+			vsched.Explore(true)
+			peers["a"].A.Inject(c17Msg(1, "a", "b"))
+			vsched.Quiesce()
+			peers["b"].A.Break() // b's connection fails
+			peers["b"].B.Break()
+			vsched.Quiesce()
+			if cbDone == 0 {
+				vsched.Fail(fam+"|callback-stuck", "b's connection failed; the disconnect callback (%s) has not completed; threads: %s", what, threadList())
+			}
+			peers["a"].A.Inject(c17Msg(2, "a", "a")) // traffic that does not involve b
+			vsched.Quiesce()
+			if n := delivered(t, "a", 2); n != 1 {
+				vsched.Fail(fam+"|stopped-forwarding", "after the disconnect callback (%s) re-entered the proxy, an envelope a->a was delivered %d times; threads: %s", what, n, threadList())
+			}
+			if what == "reattach" {
+				peers["a"].A.Inject(c17Msg(3, "a", "b"))
+				vsched.Quiesce()
+				n := 0
+				for _, e := range t.Tap.Events {
+					if e.Wire == "b2" && e.Rpc.GetId() == 3 {
+						n++
+					}
+				}
+				if n != 1 {
+					vsched.Fail(fam+"|reattached-connection-dead", "the callback re-attached b; an envelope for b reached the new connection %d times", n)
+				}
+			}
+			t.Cancel()
+			vsched.Quiesce()
+			if !t.ProxyDone {
+				vsched.Fail(fam+"|shutdown-hang", "after the disconnect callback (%s) re-entered the proxy, cancelling its context does not end Serve; threads: %s", what, threadList())
+			}
+			for _, p := range peers {
+				p.A.Break()
+				p.B.Break()
+			}
+			nb.A.Break()
+			nb.B.Break()
+			vsched.Quiesce()
+			if ts := vsched.Threads(); len(ts) > 0 {
+				vsched.Fail(fam+"|goroutine-leak", "after shutdown: %s", threadList())
+			}
 		},
 	}
 }
